@@ -39,25 +39,51 @@ theorem isolated (T : Tables) (w : World) (op : Op) (hb : Bounded w) (hs : Separ
   unfold validateH
   rw [hdesc]
 
-/-- the full preservation statement: every admissible operation keeps `Bounded` and `Separated` -/
-def separated_preserved_statement : Prop :=
-  ∀ (T : Tables) (w : World) (op : Op), Admissible w op → Bounded w → Separated w →
-    Bounded (step T w op) ∧ Separated (step T w op)
-
-/-- proved part of `separated_preserved_statement`: creating an instance (with any configuration) keeps
-the invariants — the new instance reaches only objects created for it.  Missing: the same for
-`define` (needs: every object a new class reaches is new or belongs to an existing class) and for the two
-mutations (they write only inside the target instance: `frame`); these are covered by the correspondence
-run (sharing partition after every operation) only. -/
-theorem separated_preserved_partial (T : Tables) (w : World) (n c : Name) (cfg : List (Name × PropMap))
-    (hadm : Admissible w (.inst n c cfg)) (hb : Bounded w) (hs : Separated w) :
-    Bounded (step T w (.inst n c cfg)) ∧ Separated (step T w (.inst n c cfg)) :=
-  preserve_instantiate T w n c cfg hadm hb hs
+/-- **separated_preserved**: every admissible operation — class definition, instantiation with any
+configuration, `setProperty` on an instance, replacement of an enum datatype — keeps the invariants: no
+object reachable from an instance is reachable from any other owner, all references point into the heap. -/
+theorem separated_preserved (T : Tables) (w : World) (op : Op) (hadm : Admissible w op) (hb : Bounded w)
+    (hs : Separated w) : Bounded (step T w op) ∧ Separated (step T w op) := by
+  cases op with
+  | define d => exact preserve_define T w d hadm hb hs
+  | inst n c cfg => exact preserve_instantiate T w n c cfg hadm hb hs
+  | setprop i p k v => exact preserve_setprop T w i p k v hb hs
+  | addEnum i p m => exact preserve_addEnum T w i p m hb hs
 
 /-- a run all of whose intermediate worlds satisfy the invariants -/
 inductive InvRun (T : Tables) : World → List Op → Prop
   | nil (w) : Bounded w → Separated w → InvRun T w []
   | cons (w op ops) : Bounded w → Separated w → InvRun T (step T w op) ops → InvRun T w (op :: ops)
+
+/-- every admissible run from a world satisfying the invariants is an `InvRun` — in particular every
+admissible run from the empty world -/
+theorem invRun_of_admissible (T : Tables) (ops : List Op) (w : World) (hb : Bounded w) (hs : Separated w)
+    (hrun : AdmissibleRun T w ops) : InvRun T w ops := by
+  induction ops generalizing w with
+  | nil => exact .nil w hb hs
+  | cons op ops ih =>
+    have h := separated_preserved T w op hrun.1 hb hs
+    exact .cons w op ops hb hs (ih _ h.1 h.2 hrun.2)
+
+theorem empty_world_ok : Bounded ({} : World) ∧ Separated ({} : World) := by
+  constructor
+  · intro o r hr
+    cases o <;> simp [reach, World.roots, World.findClass, World.findInst] at hr
+  · intro i o _ r hr
+    simp [reach, World.roots, World.findInst] at hr
+
+/-- **isolated**, for whole programs: after any admissible run from the empty world, one more operation
+changes neither description nor validation behaviour of any owner other than its target. -/
+theorem isolated_reachable (T : Tables) (ops : List Op) (hrun : AdmissibleRun T {} ops) (op : Op)
+    (o : Owner) (ho : o ≠ op.target) :
+    describeH (step T (run T {} ops) op) o = describeH (run T {} ops) o := by
+  have key : ∀ (ops : List Op) (w : World), InvRun T w ops → Bounded (run T w ops) ∧ Separated (run T w ops) := by
+    intro ops w h
+    induction h with
+    | nil w hb hs => exact ⟨hb, hs⟩
+    | cons w op ops _ _ _ ih => simpa [run] using ih
+  have h := key ops {} (invRun_of_admissible T ops {} empty_world_ok.1 empty_world_ok.2 hrun)
+  exact (isolated T _ op h.1 h.2 o ho).1
 
 /-- the description of a class is not changed by any sequence of later operations (none of which is the
 definition of that class itself): subclasses, siblings, instances, configurations, mutations -/
@@ -71,17 +97,18 @@ theorem class_description_stable (T : Tables) (c : Name) (ops : List Op) (w : Wo
     simp only [run, List.foldl_cons] at h2 ⊢
     rw [h2, h1]
 
-/-- **later_instances_fresh**: an instance created after any sequence of operations on other owners
-(mutations of other instances included) shows exactly what an instance of the same class with the same
-configuration would have shown before them: the class description, copied, with the configuration applied. -/
+/-- **later_instances_fresh**: an instance created after any admissible sequence of operations on other
+owners (definitions of other classes, other instances, mutations of other instances) shows exactly what an
+instance of the same class with the same configuration would have shown before them: the class description,
+copied, with the configuration applied. -/
 theorem later_instances_fresh (T : Tables) (c n : Name) (cfg : List (Name × PropMap)) (ops : List Op) (w : World)
-    (hrun : InvRun T w ops) (hops : ∀ op ∈ ops, op.target ≠ .cls c)
+    (hb : Bounded w) (hs : Separated w) (hrun : AdmissibleRun T w ops) (hops : ∀ op ∈ ops, op.target ≠ .cls c)
     (h1 : w.findInst n = none) (h2 : (run T w ops).findInst n = none) :
     describeH (instantiate T (run T w ops) n c cfg) (.inst n) = describeH (instantiate T w n c cfg) (.inst n) ∧
     describeH (instantiate T (run T w ops) n c cfg) (.inst n) =
       (instViews T (describeH w (.cls c)) cfg).map (fun nv => (nv.1, some nv.2)) := by
   rw [describe_instantiate T _ n c cfg h2, describe_instantiate T w n c cfg h1,
-    class_description_stable T c ops w hrun hops]
+    class_description_stable T c ops w (invRun_of_admissible T ops w hb hs hrun) hops]
   exact ⟨rfl, rfl⟩
 
 /-- the full statement: the description of a class in the heap is the same in any two reachable worlds in which
@@ -121,26 +148,35 @@ theorem order_independent_partial (T : Tables) (w : World) (d1 d2 : ClassDecl)
 
 /-! ## non-vacuity -/
 
-/-- the empty world satisfies the invariants -/
-example : Bounded ({} : World) ∧ Separated ({} : World) := by
-  constructor
-  · intro o r hr
-    cases o <;> simp [reach, World.roots, World.findClass, World.findInst] at hr
-  · intro i o _ r hr
-    simp [reach, World.roots, World.findInst] at hr
+/-- a small table set for the examples -/
+def exT : Tables :=
+  ⟨[("description", "\"\""), ("readonly", "true"), ("export", "true")], [("double", ["min", "max", "unit"])],
+   ["value", "target"], [("description", "description", "\"\"", true, true), ("readonly", "readonly", "true", true, true)],
+   [("description", "description", "\"\"", true, true)]⟩
 
-/-- a run with two instantiations from the empty world is an `InvRun` (hypothesis of `later_instances_fresh`
-and `class_description_stable`), for any tables -/
-example (T : Tables) : InvRun T {} [.inst "a" "C" [], .inst "b" "C" [("p", [("max", "3")])]] := by
-  have h0 : Bounded ({} : World) ∧ Separated ({} : World) := by
-    constructor
-    · intro o r hr
-      cases o <;> simp [reach, World.roots, World.findClass, World.findInst] at hr
-    · intro i o _ r hr
-      simp [reach, World.roots, World.findInst] at hr
-  have h1 := separated_preserved_partial T {} "a" "C" [] (by simp [Admissible, World.findInst]) h0.1 h0.2
-  have h2 := separated_preserved_partial T _ "b" "C" [("p", [("max", "3")])]
-    (by simp [Admissible, World.findInst, step, instantiate]) h1.1 h1.2
-  exact .cons _ _ _ h0.1 h0.2 (.cons _ _ _ h1.1 h1.2 (.nil _ h2.1 h2.2))
+/-- a base class with a parameter, a subclass narrowing it, two instances of the subclass with different
+configuration, a mutation of one of them, and a late sibling class -/
+def exOps : List Op :=
+  [.define ⟨"A", ["A"], true, [("p", .param (some "\"d\"") (some (.node "double" [("max", "10")] [] [])) [] true)]⟩,
+   .define ⟨"B", ["B", "A"], true, [("p", .param none none [("max", "5")] true)]⟩,
+   .inst "i1" "B" [("p", [("max", "3")])],
+   .inst "i2" "B" [],
+   .setprop "i1" "p" "max" "2",
+   .define ⟨"C", ["C", "A"], true, [("p", .value "1" false none)]⟩]
+
+/-- the example program is admissible from the empty world (hypothesis of `invRun_of_admissible`,
+`isolated_reachable`, `later_instances_fresh`) … -/
+example : AdmissibleRun exT {} exOps := by
+  refine ⟨rfl, ?_, ?_, ?_, trivial, ?_, trivial⟩ <;>
+    exact Option.isNone_iff_eq_none.1 (by decide +kernel)
+
+/-- … and it is not trivial: it builds 3 classes and 2 instances out of 11 heap objects, and the mutation of
+`i1` is visible in `i1` (max 2) while `i2` shows the class value (max 5) -/
+example : (run exT {} exOps).heap.length = 11 ∧ (run exT {} exOps).classes.length = 3 ∧
+    (run exT {} exOps).insts.length = 2 := by decide +kernel
+
+example : ((describeH (run exT {} exOps) (.inst "i1")).map (fun nv => nv.2.bind (·.tree) |>.map (·.props))) = [some [("max", "2")]] ∧
+    ((describeH (run exT {} exOps) (.inst "i2")).map (fun nv => nv.2.bind (·.tree) |>.map (·.props))) = [some [("max", "5")]] := by
+  decide +kernel
 
 end Frappy.Props.C09
